@@ -27,6 +27,13 @@ def cases(tier, seed):
         picks = [(reqs[i % len(reqs)], resps[i % len(resps)]) for i in ([1, 0, 3, 2, 4][:k] if k <= 5 else [1, 0] + list(range(2, k)))]
         for (rq, rs) in picks:
             out.append((version, action, rq[1], rs[1]))
+    # strings as a peer may legally send them in JSON: escapes of unpaired surrogates (text cut in the middle of an emoji),
+    # NUL, characters beyond the BMP, a BOM -- the library hands them to the handler, so it must take them back
+    odd = ["a\ud83d", "\udc00x", "\x00", "\U0001F50C", "\ufeffx", "\u2028"]
+    for i, sv in enumerate(odd):
+        out.append(("1.6", "DataTransfer", {"vendorId": sv, "data": sv + "d"}, {"status": "Accepted", "data": sv}))
+        out.append(("2.0.1", "DataTransfer", {"vendorId": "v", "data": {"k" + sv: [sv]}}, {"status": "Accepted", "data": {"d": sv}}))
+        out.append(("1.6", "Authorize", {"idTag": sv}, {"idTagInfo": {"status": "Accepted", "parentIdTag": sv}}))
     return out
 
 
